@@ -547,6 +547,34 @@ class KernelRun:
             await self.step_op("release", "./plan.py", fn=lambda: wf.find(Step, "./plan.py").release())
             await self.pop()
 
+    async def shrink_resources(self):
+        """A step that requires two resources is detached (its creator runs again) and declared again
+        with only one of them, unchanged otherwise (full recycle) or with another output (node reuse)."""
+        r, wf = self.r, self.wf
+        running = await self.q(lambda: self.steps(StepState.RUNNING))
+        if "./plan.py" not in running:
+            return
+        o1, o2 = r.sample(PATHS, 2)
+        first = {"cpu": r.choice([1, 2]), "gpu": 1}
+        second = {r.choice(["cpu", "gpu"]): 1}
+        out2 = o1 if r.random() < 0.6 else o2
+        for res, out in ((first, o1), (second, out2)):
+            self.decls["shrink"] = ("shrink", ".", (), (), (out,), (), Need.DEFAULT, False, dict(res), {})
+
+            def fn(res=res, out=out):
+                return wf.define_step(wf.find(Step, "./plan.py"), "shrink", inp_paths=[], env_deps=[], out_paths=[out],
+                                      vol_paths=[], workdir=".", need=Need.DEFAULT, resources=dict(res), shell=False,
+                                      env_overrides=None, _safe=False)
+
+            line = (f"k define {kkey('step', './plan.py')} {hexs('shrink')} {hexs('.')} . . {hexlist([out])} . DEFAULT 0 0 "
+                    f"{units_tok(res)} .")
+            if not (await self.tx(line, fn, lambda v: hexlist(sorted(v)))).startswith("ok"):
+                return
+            if res is first:
+                await self.step_op("reset_rerun", "./plan.py", fn=lambda: wf.find(Step, "./plan.py").reset_for_rerun())
+        for _ in range(r.randint(1, 3)):
+            await self.pop()
+
     async def deferred_wakeup(self):
         """A consumer amends an input that is OUTDATED (its producer has to run again) and is
         deferred; the producer then rewrites the same content (no hash update: `mark_completed`
@@ -1011,7 +1039,7 @@ class KernelRun:
             await self.tx("k reconcile", lambda: wf.reconcile_targets())
 
     SCENARIOS = ("nested_chain", "deferred_wakeup", "resource_race", "detached_completion", "rerole",
-                 "amended_consumer_rerun", "hold_recycle")
+                 "amended_consumer_rerun", "hold_recycle", "shrink_resources")
 
     async def generate(self, cm, nops: int, scenario: str | None = None):
         """A history: boot, then (in the well-formed stream) one directed scenario with probability
@@ -1038,6 +1066,8 @@ class KernelRun:
                 await self.amended_consumer_rerun()
             elif k < 0.64:
                 await self.hold_recycle()
+            elif k < 0.68:
+                await self.shrink_resources()
         menu = [(self.define, 20), (self.static, 8), (self.declstatic, 5), (self.tree, 4), (self.nglob, 4),
                 (self.amend, 8), (self.recycle_under_glob, 3),
                 (self.confirm, 12), (self.external, 6), (self.pop, 18), (self.run_step, 18),
